@@ -921,6 +921,7 @@ LOOKUP_ASSUME = SERVER_ASSUME + [
 
 
 def lookup_check(ctx, kind, strict, sizes_q, sizes_t, seeds_q, seeds_t, what):
+    ctx.level = "exploration"
     q = ctx.quick
     sc = lookup_scenarios(ctx, kind, sizes_q if q else sizes_t, seeds_q if q else seeds_t)
     parts, known = run_node_scenarios(ctx, sc, strict, kind)
@@ -977,6 +978,7 @@ def maint_scenarios(ctx, minutes_q=60, minutes_t=240):
 
 
 def generic_node_check(ctx, scenarios, strict, what, rule, min_events=None):
+    ctx.level = "exploration"
     parts, known = run_node_scenarios(ctx, scenarios, strict, what)
     n, kinds = node_stats(ctx, parts)
     ctx.cov["traces_validated_against_impl"] = len(parts)
